@@ -58,3 +58,12 @@ Print Assumptions C19_nondominant_decay.
 Print Assumptions C19_dominant_coordinate_sign.
 Print Assumptions C19_rayleigh_in_eigenbasis.
 Print Assumptions C19_estimate_converges.
+
+From QVT Require Import PowerIterNH.
+(* the complex-adjoint variant returns a unit quaternion vector, for every matrix, budget, pair of tolerances (res_tol = None included) and
+   start vector; the only other possibility is the zero vector, when the purified vector it maps back is zero *)
+Theorem C19_nonhermitian_variant_unit_vector n (A : fmat ROps) eig_tol res_tol max_it (x0 : nat -> fq ROps) :
+  vnorm ROps n (fst (fst (nonherm ROps n A eig_tol res_tol max_it x0))) = 1%R \/
+  vnorm ROps n (fst (fst (nonherm ROps n A eig_tol res_tol max_it x0))) = 0%R.
+Proof. exact (nonherm_unit n A eig_tol res_tol max_it x0). Qed.
+Print Assumptions C19_nonhermitian_variant_unit_vector.
